@@ -456,6 +456,24 @@ func (nm *NodeMachine) Apply(op NOp) error {
 		if op.TwoCB {
 			txs = append(txs, AwardTx(prop.Address, award, "award2-"+op.Label, nm.LM.Ts))
 		}
+		// transactions re-used from other blocks come first (generated ones may build on them)
+		for _, idHex := range op.Old {
+			for _, btxs := range nm.blockTxsSorted() {
+				for _, otx := range btxs {
+					if hex.EncodeToString(otx.Txid) == idHex && !otx.Coinbase {
+						if cerr := s.Check(otx, height); cerr != nil {
+							valid = false
+							whyNot = fmt.Sprintf("re-included transaction %s: %v", Hex8(otx.Txid), cerr)
+						} else {
+							nm.Stat["peer-shares-tx-with-other-branch"]++
+						}
+						s.Apply(otx, prop.Address)
+						txs = append(txs, CloneTx(otx))
+						idHex = ""
+					}
+				}
+			}
+		}
 		buildState := s
 		if op.TxsAt != nil && *op.TxsAt >= 0 && *op.TxsAt < len(m.Blocks) && nm.States[*op.TxsAt] != nil {
 			buildState = nm.States[*op.TxsAt].Clone()
@@ -480,23 +498,6 @@ func (nm *NodeMachine) Apply(op NOp) error {
 				if hex.EncodeToString(ptx.Txid) == idHex && s.Check(ptx, height) == nil {
 					s.Apply(ptx, prop.Address)
 					txs = append(txs, CloneTx(ptx))
-				}
-			}
-		}
-		for _, idHex := range op.Old {
-			for _, btxs := range nm.blockTxsSorted() {
-				for _, otx := range btxs {
-					if hex.EncodeToString(otx.Txid) == idHex && !otx.Coinbase {
-						if cerr := s.Check(otx, height); cerr != nil {
-							valid = false
-							whyNot = fmt.Sprintf("re-included transaction %s: %v", Hex8(otx.Txid), cerr)
-						} else {
-							nm.Stat["peer-shares-tx-with-other-branch"]++
-						}
-						s.Apply(otx, prop.Address)
-						txs = append(txs, CloneTx(otx))
-						idHex = ""
-					}
 				}
 			}
 		}
